@@ -168,6 +168,7 @@ def run(ctx, res):
 
     # ---- R5 --------------------------------------------------------------------------
     res.floor("C07.R5", 3)
+    res.floor("C07.R7", 3)
     for g in (reload_, now_):
         for p in paths[g.name]:
             if p.end != "exit":
@@ -216,6 +217,11 @@ def run(ctx, res):
                               "keeps a merger over freed readers" % g.name, g.loc(e.node), p.describe(g))
                     if current:
                         sec = nsec = True
+            if g is reload_:
+                res.check(reinit or (sec and nsec and not changed and not need), "C07.R7", site(g, "current-at-exit"),
+                          "every return of mtbl_fileset_reload leaves the handle's merger matching the shared file set (rebuilt or shown equal)",
+                          "mtbl_fileset_reload can return without having compared the handle's generation with the shared one: a source operation then uses a "
+                          "merger over files that another handle has since reloaded or unloaded", g.loc(g.body), p.describe(g))
     for fld, fn in (("n_loaded", "fs_load"), ("n_unloaded", "fs_unload")):
         ws = [(g.name, n.get("op")) for g in prog.lib_funcs() for n, lhs in field_stores(g, "shared_fileset", fld)]
         incs = [w for w in ws if w[1] in ("++", "+=")]
